@@ -17,6 +17,12 @@ type PathRule[S comparable] struct {
 	// Phi (optional) is told, when control flows along an edge into a block,
 	// which value each phi of that block takes (edge = index into Preds).
 	Phi func(s S, phi *ssa.Phi, val ssa.Value) S
+	// Follow enables the interprocedural step: a static call to a function of the same package is
+	// followed (bounded depth, no recursion), so that extracting a block into a private helper does
+	// not change what the rule sees.
+	Follow bool
+	depth    int
+	stack    []*ssa.Function
 }
 
 type PathResult[S comparable] struct {
@@ -118,6 +124,13 @@ func (res *PathResult[S]) flow(b *ssa.BasicBlock, s S, visit func(ins ssa.Instru
 			if outs == nil {
 				outs = []S{st}
 			}
+			if callee := res.followable(ins); callee != nil {
+				var after []S
+				for _, o := range outs {
+					after = append(after, res.summary(callee, ins.(*ssa.Call), o, visit)...)
+				}
+				outs = after
+			}
 			for _, o := range outs {
 				if !seen[o] {
 					seen[o] = true
@@ -129,6 +142,87 @@ func (res *PathResult[S]) flow(b *ssa.BasicBlock, s S, visit func(ins ssa.Instru
 	}
 	return cur
 }
+
+// followable: a plain (not go/defer) static call to a function of the analysed function's
+// package that has a body, within the depth bound and not already on the stack.
+func (res *PathResult[S]) followable(ins ssa.Instruction) *ssa.Function {
+	r := res.rule
+	if r.depth >= 3 {
+		return nil
+	}
+	call, ok := ins.(*ssa.Call)
+	if !ok {
+		return nil
+	}
+	callee := call.Call.StaticCallee()
+	if callee == nil || len(callee.Blocks) == 0 {
+		return nil
+	}
+	// an immediately invoked function literal of the analysed function is inline code (this is also
+	// the shape the normalisation pre-pass gives a helper with early returns): always followed
+	iife := callee.Parent() == r.Fn
+	if !iife && !r.Follow {
+		return nil
+	}
+	if !iife && (callee.Pkg == nil || r.Fn.Pkg == nil || callee.Pkg != r.Fn.Pkg) {
+		return nil
+	}
+	if callee == r.Fn {
+		return nil
+	}
+	for _, f := range r.stack {
+		if f == callee {
+			return nil
+		}
+	}
+	return callee
+}
+
+// summary runs the rule over callee from state s and returns the states at its returns. The
+// callee's parameters are bound to the call's arguments for origin() while it runs.
+func (res *PathResult[S]) summary(callee *ssa.Function, call *ssa.Call, s S, visit func(ins ssa.Instruction, s S)) []S {
+	r := res.rule
+	sub := &PathRule[S]{Fn: callee, Init: []S{s}, Transfer: r.Transfer, Branch: r.Branch, Phi: r.Phi, Follow: true, depth: r.depth + 1, stack: append(append([]*ssa.Function{}, r.stack...), r.Fn)}
+	var saved []ssa.Value
+	for i, par := range callee.Params {
+		saved = append(saved, paramBinding[par])
+		if i < len(call.Call.Args) {
+			paramBinding[par] = call.Call.Args[i]
+		}
+	}
+	defer func() {
+		for i, par := range callee.Params {
+			if saved[i] == nil {
+				delete(paramBinding, par)
+			} else {
+				paramBinding[par] = saved[i]
+			}
+		}
+	}()
+	subRes := RunPath(sub)
+	res.N += subRes.N
+	var outs []S
+	seen := map[S]bool{}
+	collect := func(ins ssa.Instruction, st S) {
+		if visit != nil {
+			visit(ins, st)
+		}
+		if _, ok := ins.(*ssa.Return); ok && !seen[st] {
+			seen[st] = true
+			outs = append(outs, st)
+		}
+	}
+	subRes.Visit(collect)
+	if len(outs) == 0 {
+		// the callee never returns normally (panics / loops): the caller does not continue
+		return nil
+	}
+	return outs
+}
+
+// paramBinding maps a parameter of a function that is currently being followed to the argument
+// of the call being followed; origin() looks through it.
+var paramBinding = map[*ssa.Parameter]ssa.Value{}
 
 // Visit calls f with every (instruction, state-before) pair reachable at the fixpoint.
 func (res *PathResult[S]) Visit(f func(ins ssa.Instruction, s S)) {
